@@ -277,7 +277,7 @@ func ChooseRecord(x Chooser, full bool) *Rec {
 }
 
 // NShapes is the number of shape transformations ChooseShape knows.
-const NShapes = 15
+const NShapes = 17
 
 // ChooseShape re-encodes one field of the record in another legal or
 // near-legal shape (one more value, another integer type, no NUL terminator,
@@ -390,6 +390,24 @@ func ChooseShape(x Chooser, rec *Rec) string {
 			v.Ints = []uint32{v.Ints[0], v.Ints[0] ^ 1}
 		} else if len(v.Rats) == 1 {
 			v.Rats = [][2]uint32{v.Rats[0], {v.Rats[0][0] + 1, v.Rats[0][1] + 1}}
+		}
+	case 15, 16: // a text field written with a two- or four-byte integer type: one value (embedded) or three (out of line)
+		if v.Type == TASCII && len(v.Str) >= 2 {
+			v.Type = []uint16{TShort, TLong}[k-15]
+			b := []byte(v.Str + "\x00\x00\x00\x00\x00\x00\x00\x00\x00\x00\x00\x00")
+			cnt := 1
+			if len(v.Str) > 4 {
+				cnt = 3
+			}
+			v.Ints = nil
+			for i := 0; i < cnt; i++ {
+				if v.Type == TShort {
+					v.Ints = append(v.Ints, uint32(b[2*i])<<8|uint32(b[2*i+1]))
+				} else {
+					v.Ints = append(v.Ints, uint32(b[4*i])<<24|uint32(b[4*i+1])<<16|uint32(b[4*i+2])<<8|uint32(b[4*i+3]))
+				}
+			}
+			v.Str = ""
 		}
 	case 12, 13, 14: // text at and beyond the size of the value reader's window (4096 bytes with the NUL)
 		if v.Type == TASCII {
